@@ -639,8 +639,11 @@ class Model(EconomicObject):
             raise Warning('There are no equations in the system.')
         # Build the FinalEquationBlock
         self.FinalEquationBlock = EquationBlock()
+        # (The marker is only ever put in front of the variable of a sector: a model-level equation that starts with a
+        # variable named EXOGENOUS_RATE is an equation.)
+        model_level = set(row[0] for row in self.GlobalVariables)
         for row in out:
-            if self._IsExogenousDefinition(row[1]):
+            if row[0] not in model_level and self._IsExogenousDefinition(row[1]):
                 eq = Equation(row[0], desc=row[2], rhs=self._StripExogenousMarker(row[1]))
             else:
                 eq = Equation(row[0], desc=row[2], rhs=row[1])
@@ -683,8 +686,9 @@ class Model(EconomicObject):
         out = [(row[0], ' '.join(row[1].splitlines()), ' '.join(row[2].splitlines())) for row in out]
         endo = []
         exo = []
+        model_level = set(row[0] for row in self.GlobalVariables)
         for row in out:
-            if self._IsExogenousDefinition(row[1]):
+            if row[0] not in model_level and self._IsExogenousDefinition(row[1]):
                 new_eqn = self._StripExogenousMarker(row[1])
                 exo.append((row[0], new_eqn, row[2]))
             else:
